@@ -51,12 +51,17 @@ def instances(tier):
                 continue
             out.append(dict(id="%s-%s" % (cls.__name__, "x".join(map(str, sh))), cls=cls.__name__, shape=list(sh),
                             mode="splitting" if symp else "explicit", budget=b))
+            if symp and sh == (2,):
+                for off in ([1] if tier == "quick" else [0, 1, 2]):
+                    out.append(dict(id="%s-2-nonfinite+%d" % (cls.__name__, off), cls=cls.__name__, shape=[2], mode="splitting_nonfinite", fault_offset=off, budget=b))
             if not symp and sh == (1,) and cls.__name__ not in ("RK1412Solver", "RK108Solver"):
                 stg = int(np.asarray(cls.tableau_intermediate).shape[0])
                 for off in sorted(set([0, 1, stg, stg + 2, 2 * stg + 1])):
                     if quick_skip(tier, cls.__name__, off, stg):
                         continue
                     out.append(dict(id="%s-1-fault+%d" % (cls.__name__, off), cls=cls.__name__, shape=[1], mode="explicit_fault", fault_offset=off, budget=b))
+                for off in ([1] if tier == "quick" else sorted(set([0, 1, stg - 1, stg]))):
+                    out.append(dict(id="%s-1-nonfinite+%d" % (cls.__name__, off), cls=cls.__name__, shape=[1], mode="explicit_nonfinite", fault_offset=off, budget=b))
     for cls in im:
         for sh in ([(1,)] if tier == "quick" else [(1,), (2,)]):
             if cls.__name__ == "RadauIIA19" and sh != (1,):
@@ -110,7 +115,7 @@ def scenario(c, inst):
     scale = 1
     if not c.symbolic:
         scale = 64 * max(1.0, abs(float(h))) * max(1.0, float(np.max(np.abs(A))))
-    if mode in ("explicit", "explicit_fault"):
+    if mode in ("explicit", "explicit_fault", "explicit_nonfinite"):
         # congruent uninterpreted rhs: the oracle evaluates f itself at the defining stage points, so the check does not depend on
         # how many evaluations the implementation makes or which cached slopes it legitimately reuses - a stale slope is a different symbol
         if c.symbolic:
@@ -139,6 +144,35 @@ def scenario(c, inst):
             c.check("c02.increment_is_weighted_sum", _eqv(c, dY, want_dY, scale), info=dict(call=tag))
 
         tt, yy = t, y
+        if mode == "explicit_nonfinite":
+            # an attempt during which the rhs returned NaN (it left its domain: no exception) is rejected / abandoned; the next attempt
+            # from the same finite (t, y) on the same object must again be the Runge-Kutta update - nothing of the NaN attempt may leak in
+            rhs.nan_at = inst["fault_offset"]
+            if integ.is_adaptive:
+                seen = []
+
+                def forced(ignore_custom_adaptation=False):
+                    seen.append(integ.solver_dict["timestep"])
+                    if len(seen) == 1:
+                        return 0.5 * integ.solver_dict["timestep"], True      # what the real controller does on a NaN estimate: reject
+                    return integ.solver_dict["timestep"], False
+                integ.update_timestep = forced
+                st, r = run(integ, rhs, tt, yy, {}, h)
+                if st != "ok":
+                    c.check("c02.nonfinite.retry_returns", False, info=repr(r))
+                    return
+                new_h, (dT, dY) = r
+                c.check("c02.nonfinite.retry_is_half_step", c.eq(dT, 0.5 * h))
+                formula_checks("retry after a NaN attempt", tt, yy, dT, dT, dY)
+            else:
+                run(integ, rhs, tt, yy, {}, h)
+            st, r = run(integ, rhs, tt, yy, {}, h)
+            if st != "ok":
+                c.check("c02.nonfinite.next_call_returns", False, info=repr(r))
+                return
+            new_h, (dT, dY) = r
+            formula_checks("call after a NaN attempt", tt, yy, dT, dT, dY)
+            return
         st, r = run(integ, rhs, tt, yy, {}, h)
         if st != "ok":
             c.check("c02.call0.no_exception", False, info=repr(r))
@@ -168,8 +202,12 @@ def scenario(c, inst):
         formula_checks("after", tt, yy, dT, dT, dY)
         c.check("c02.dTime_is_attempted_step", c.eq(dT, h) if len(log) == n_log else c.eq(dT, log[-1]["dT"]))
         return
-    if mode == "splitting":
+    if mode in ("splitting", "splitting_nonfinite"):
         rhs = FreshRhs(c, shape)
+        if mode == "splitting_nonfinite":
+            # history: a step on this object during which the rhs returned NaN (left its domain); its result is discarded
+            rhs.nan_at = inst["fault_offset"]
+            run(integ, rhs, t, y, {}, h)
         s = A.shape[0]
         kick = np.zeros(shape)
         kick[np.arange(shape[0] // 2, shape[0])] = 1.0
